@@ -65,3 +65,8 @@ Definition case_ok (k: case) : bool := match check_case k with None => true | So
 Definition trace_case (k: case) : list (state * nat) :=
   let st := after_defs (k_fam k) (k_d5 k) (k_defs k) in
   (st, 0) :: map (fun p => (fst p, okind (snd p))) (run_states (k_fam k) (k_d5 k) FUEL st (map fst (k_steps k))).
+
+(* computable domain predicate of the theorems: a class with a position of its own type is never specialised *)
+Definition has_selfb (F: fam) (c: cid) : bool := existsb (fun g => Nat.eqb (f_cls g) c) (c_fields (cls F c)).
+Definition selfref_unspecb (F: fam) : bool :=
+  forallb (fun cd => forallb (fun f => negb (has_selfb F (f_cls f)) || Nat.eqb (f_spec f) 0) (c_fields cd)) F.
